@@ -116,7 +116,7 @@ def _eval_ops(cases):
                 bad('tophat_open:exact', got=_ints(R['thopen']))
             if not np.array_equal(_O(R['thclose']), _O(R['close']) - _O(f0)):
                 bad('tophat_close:exact', got=_ints(R['thclose']))
-            if dtype == 'bool':
+            if dtype == 'bool' and drv['symstar'] == '1':   # hypothesis SymStar of C02_bool_duality, decided by the Lean model
                 dual = ~mh.erode(~F, Bc)
                 if not np.array_equal(dual, R['dilate']):
                     bad('bool-duality', dilate=_ints(R['dilate']), dual=_ints(dual))
@@ -141,7 +141,7 @@ def _eval_ops(cases):
                         nontrivial=bool(not np.array_equal(R['open'], f0) or not np.array_equal(R['close'], f0)),
                         sig=line + case.get('layout', 'C') + case.get('layoutg', 'C'),
                         tags=dict(kind='ops', dtype=dtype, ndim=len(case['shape']), layout=case.get('layout', 'C'),
-                                  elem=case.get('elem', '?'), pair=case.get('pair', '?'),
+                                  elem=case.get('elem', '?'), pair=case.get('pair', '?'), symstar=drv['symstar'],
                                   domain=('clear' if (clearf and clearg) else 'f-clear' if clearf else 'saturating') if lawful else 'signed',
                                   adjunction=tag_adj)))
     return res
